@@ -90,9 +90,16 @@ def do_replay(prop, mod, path):
     bad = [o for o in T.obligations if o["status"] == "violated"]
     for o in T.obligations:
         print(f"  {o['status']:15s} {o['label']}  {o['detail'][:200]}")
+    known = load_known(prop)
+    cid = r.get("case", "")
     hit = [o for o in bad if want is None or o["label"] == want or o["label"] == "!exception"]
+    if not hit:
+        # the real float code may break the property at this input under a different observable than the symbolic run
+        # predicted (e.g. nan instead of an exception): any violated obligation that is not a listed known finding counts
+        hit = [o for o in bad if match_known(known, cid, o["label"]) is None]
     if hit:
         print(f"VIOLATION property={prop} replay={path}")
+        print(f"  violated on the real float code: {[o['label'] for o in hit][:6]}")
         return 1
     print(f"replay: property={prop} obligation {want!r} holds on the real float code at this input")
     return 0
